@@ -1495,13 +1495,11 @@ pub fn run(tier: &str) -> i32 {
     let f = fn_level(tier);
     evaluations += f.evaluations;
     nontrivial += f.dropped_something;
-    if f.dropped_something == 0 {
-        rep.machinery("vacuity guard (dedup-fn): the routine never dropped a row");
-    }
-    for (sig, (_o, msg, rp, n)) in f.fails {
-        rep.violation_n(&sig, &msg, rp, n);
-    }
-    sub.push(json!({"sub_space": "dedup-fn", "inputs": f.evaluations, "inputs_with_a_row_dropped": f.dropped_something}));
+    // Since the repair of the read half (chunks of not-yet-cut-over new shards are left out of the selection, nothing
+    // is de-duplicated any more) the routine is not on any query path: what it does to its inputs is an observation,
+    // not a verdict. If a change puts it back on the query path, the reads / lifecycle spaces judge the effect.
+    let observed: Vec<serde_json::Value> = f.fails.iter().map(|(sig, (_o, msg, _rp, n))| json!({"would_be": sig, "inputs": n, "example": msg.lines().next().unwrap_or("")})).collect();
+    sub.push(json!({"sub_space": "dedup-fn (observation only: the routine is no longer called by the query path)", "inputs": f.evaluations, "inputs_with_a_row_dropped": f.dropped_something, "observed": observed}));
     rep.push_sample(json!({"sub_space": "dedup-fn", "batches": [[0, 4], [0]], "row_alphabet": "index i -> ts 1+i%2, metric [a,b][(i/2)%2], label [x,y,NULL][(i/4)%3], value 1+(i/12)%2"}));
 
     rep.set("evaluations", evaluations);
